@@ -177,6 +177,33 @@ def run(chk, repo, tier):
                         chk.violation(L5a, rel, f.qualname, n.text() + ' without condition held',
                                       'wait() on a path where the condition is not acquired', line=n.line,
                                       witness='RuntimeError: cannot wait on un-acquired lock')
+                # Condition.wait_for(predicate) is `while not predicate(): wait()`: the loop is built in, the predicate is the
+                # negated callable
+                if isinstance(v, ast.Call) and isinstance(v.func, ast.Attribute) and v.func.attr == 'wait_for' \
+                        and self_attr(v.func.value) in locks and v.args:
+                    lk = self_attr(v.func.value)
+                    from sa import reach as _reach
+                    pred_fn = v.args[0]
+                    if isinstance(pred_fn, ast.Name):
+                        loc_ = _reach.local_callables(f.node)
+                        pred_fn = loc_.get(pred_fn.id, pred_fn)
+                    body_ = None
+                    if isinstance(pred_fn, ast.Lambda):
+                        body_ = pred_fn.body
+                    elif isinstance(pred_fn, ast.FunctionDef):
+                        rets_ = [r.value for r in ast.walk(pred_fn) if isinstance(r, ast.Return) and r.value is not None]
+                        body_ = rets_[0] if len(rets_) == 1 else None
+                    if body_ is None:
+                        raise AnalysisError(f'L5a: predicate of {n.text()} not resolved')
+                    test_ = body_.operand if isinstance(body_, ast.UnaryOp) and isinstance(body_.op, ast.Not) \
+                        else ast.UnaryOp(op=ast.Not(), operand=body_)
+                    pseudo = ast.While(test=test_, body=[n.ast], orelse=[])
+                    chk.instance(L5a, f'{f.qualname}: {n.text()} = while {unparse(test_)}: wait()')
+                    wait_sites.append((c, f, pseudo, lk))
+                    if not lf.must_hold(n.id, lk):
+                        chk.violation(L5a, rel, f.qualname, n.text() + ' without condition held',
+                                      'wait_for() on a path where the condition is not acquired', line=n.line,
+                                      witness='RuntimeError: cannot wait on un-acquired lock')
     # ---- L5b: notify completeness
     for c, wf, loop, lk in wait_sites:
         locks = class_lock_attrs(c)
@@ -218,6 +245,9 @@ def run(chk, repo, tier):
                             and self_attr(n.ast.value.func.value) == lk)
                         or (n.kind == 'with_exit' and self_attr(n.ast) == lk)} | {cfg.exit, cfg.raise_exit}
             for d in removals:
+                # per removal: the yields that can come before it (a method that serves both modes has a yield per mode)
+                ys_d = [y for y in ys if d.id in cfg.reachable(y, edge_ok=lf.edge_ok)]
+                continuous = bool(ys_d) and all(lf.must_hold(y, lk) for y in ys_d)
                 chk.instance(L5b, f'{f.qualname}: {d.text()} (holds condition continuously: {continuous}; '
                                   f'wait predicate `{unparse(loop.test)}` waiter-local: {waiter_local})')
                 if continuous:
